@@ -61,7 +61,6 @@ func OverlappingTemplateMatchingProto(bits []bool, m int) (p1 float64, p2 float6
 	patterns1 := make([]int, 1<<uint(m))
 	patterns2 := make([]int, 1<<uint(m-1))
 	patterns3 := make([]int, 1<<uint(m-2))
-	var Phi1, Phi2, Phi3 float64 = 0, 0, 0
 	var DPhi2, D2Phi2 float64 = 0, 0
 
 	var mask1 int = (1 << uint(m)) - 1
@@ -85,28 +84,21 @@ func OverlappingTemplateMatchingProto(bits []bool, m int) (p1 float64, p2 float6
 	}
 
 	// Step 3
+	// ψ²_m = (2^m/n)·Σv² - n。两个差分中的 -n 项相互抵消，因此直接在整数平方和上求差分，
+	// 避免浮点相消误差（某些序列的 ∇²ψ² 恰为 0，而 igamc(1/2, x) 在 0 附近对 x 极为敏感）。
+	var sum1, sum2, sum3 int64
 	for i := 0; i <= mask1; i++ {
-		Phi1 += float64(patterns1[i]) * float64(patterns1[i])
+		sum1 += int64(patterns1[i]) * int64(patterns1[i])
 	}
-	Phi1 *= float64(mask1 + 1)
-	Phi1 /= float64(n)
-	Phi1 -= float64(n)
 	for i := 0; i <= mask2; i++ {
-		Phi2 += float64(patterns2[i]) * float64(patterns2[i])
+		sum2 += int64(patterns2[i]) * int64(patterns2[i])
 	}
-	Phi2 *= float64(mask2 + 1)
-	Phi2 /= float64(n)
-	Phi2 -= float64(n)
 	for i := 0; i <= mask3; i++ {
-		Phi3 += float64(patterns3[i]) * float64(patterns3[i])
+		sum3 += int64(patterns3[i]) * int64(patterns3[i])
 	}
-	Phi3 *= float64(mask3 + 1)
-	Phi3 /= float64(n)
-	Phi3 -= float64(n)
-
 	// Step 4
-	DPhi2 = Phi1 - Phi2
-	D2Phi2 = Phi1 - 2*Phi2 + Phi3
+	DPhi2 = float64(int64(mask1+1)*sum1-int64(mask2+1)*sum2) / float64(n)
+	D2Phi2 = float64(int64(mask1+1)*sum1-2*int64(mask2+1)*sum2+int64(mask3+1)*sum3) / float64(n)
 
 	// Step 5
 	p1 = igamc(float64(len(patterns3)), DPhi2/2.0)
